@@ -144,7 +144,7 @@ def run_case(case):
                             viol.append((tag + "ks/bond-set", "frame %d donor residue %d -> acceptor residue %d: %s by mdtraj (E=%s), %s by the documented "
                                          "formula (E=%s)" % (f, k[0], k[1], "reported" if k in got else "absent", got.get(k), "a bond" if k in exp else "no bond", exp.get(k))))
                             break
-                        if abs(got[k] - exp[k]) > 2e-3 * max(1.0, abs(exp[k])):
+                        if not abs(got[k] - exp[k]) <= 2e-3 * max(1.0, abs(exp[k])):
                             viol.append((tag + "ks/energy", "frame %d pair %s: energy %.5f, formula %.5f" % (f, k, got[k], exp[k])))
                             break
                     if viol:
